@@ -473,7 +473,35 @@ func asmGenRule(r *vf.Rand, calm, isDefault bool) *asmRule {
 
 	if !isDefault {
 		rl.Slashes = vf.Pick(r, []string{"", "", "off", "on"})
+
+		return rl
 	}
+
+	// the configuration schema demands unique items in the default rule's lists
+	seen := map[string]bool{}
+	uniq := func(in []asmStep) []asmStep {
+		var out []asmStep
+
+		for _, s := range in {
+			if !seen[s.M] {
+				seen[s.M] = true
+				out = append(out, s)
+			}
+		}
+
+		return out
+	}
+
+	var authn []string
+
+	for _, a := range rl.Authn {
+		if !seen[a] {
+			seen[a] = true
+			authn = append(authn, a)
+		}
+	}
+
+	rl.Authn, rl.SH, rl.FI, rl.EH = authn, uniq(rl.SH), uniq(rl.FI), uniq(rl.EH)
 
 	return rl
 }
